@@ -147,6 +147,20 @@ func runC07(c *Ctx) {
 	H := u.ToBool(g.RetExpr(s, 0))
 	mentions := func(e, p *E) bool { return u.Mentions(e, func(x *E) bool { return x == p }) }
 
+	// identity pre-test (if f == r { return false }): a rule compared with itself must not outrank;
+	// for two distinct rules the decision is the remaining function
+	if idE := u.Eq(fP, rP); idE.Op == "bool" {
+		if vs := u.bdd.Support(idE.B); len(vs) == 1 {
+			for _, v := range u.bdd.Support(H) {
+				if v == vs[0] {
+					onSame := u.SubstBool(u.bdd.Cofactor(H, v, idE.B == u.bdd.Var(v)), map[string]*E{rP.key: fP})
+					c.Check(onSame == False, "C07.R1", "IsHigherPriority: identity pre-test", ihp.Pos(), "f == r => false", "a rule compared with itself (same pointer) can be reported as outranking itself")
+					H = u.bdd.Cofactor(H, v, idE.B != u.bdd.Var(v))
+				}
+			}
+		}
+	}
+
 	type keyAtom struct {
 		atom   *E
 		fSide  *E
